@@ -374,4 +374,5 @@ def run(ctx):
             ctx.bump(f"lazy:distinct_ranks={min(len(set(impl['ranks'])), 5)}")
             if len(set(impl["ranks"])) > 1:
                 ctx.nontrivial.add(hash(json.dumps([c["base"], c["ops"], c["kind"]])))
-        ctx.failures.extend(compare_lazy(c, impl, resp[off:off + ln]))
+        for f in compare_lazy(c, impl, resp[off:off + ln]):
+            ctx.fail(f, lambda f: core.generic_shrink(f, recheck, fields=("ops", "base"), budget=30))
